@@ -2,3 +2,5 @@ import AL.Props.C13
 #print axioms AL.C13.key_sets
 #print axioms AL.C13.defaults_report
 #print axioms AL.C13.case_insensitive_sections
+#print axioms AL.C13.unknown_key
+#print axioms AL.C13.duplicate_key
